@@ -9,7 +9,7 @@ from vmon.oracle.util import deep_diff, clone
 
 PROPERTY = "C12"
 RULE = ("Generated structures (1-7 atoms, all four term kinds incl. impropers, tables, extra columns, unique atom ids) "
-        "in orthorhombic, LAMMPS-triclinic (all tilt signs), arbitrarily rotated triclinic and rotated orthorhombic cells, replicated by EVERY factor "
+        "in orthorhombic, LAMMPS-triclinic (all tilt signs), arbitrarily rotated triclinic and rotated orthorhombic cells (one structure in three: whole-number cells with negative entries whose lattice offsets cancel exactly), replicated by EVERY factor "
         "triple in {1..F}^3 (F=3 quick, 5 thorough). Oracle: every original id appears exactly once per image offset "
         "i*A+j*B+k*C with identical resolved type data, charge, group; cell rows a*A,b*B,c*C; every term copied within "
         "each image with its resolved type and extras; tables unchanged; input object deep-equal to its snapshot; "
